@@ -64,6 +64,12 @@ def check_spec(name, sp, fns, consts, timeout_ms, cfg="fe64"):
     if sp.get("bv"):
         import bvdomain
         bvdomain.reset()        # fresh z3 context: the verdict must not depend on which specifications ran before
+        if "bad" not in SELFTEST:
+            SELFTEST["bad"] = bvspecs.selftest()
+            bvdomain.reset()
+        if SELFTEST["bad"]:
+            res.update(status="inconclusive", reason="specification self-test against hashlib failed for %s: nothing is claimed" % SELFTEST["bad"])
+            return res
     I = Interp(fns, consts, AtomTable())
     I.generic = sp.get("generic", {})
     R = Recorder(I)
@@ -102,7 +108,8 @@ def check_spec(name, sp, fns, consts, timeout_ms, cfg="fe64"):
         entry = dict(what=o["what"], kind=o["kind"], verdict={"unsat": "proved", "sat": "counterexample", "unknown": "unknown"}.get(r, r))
         if r == "sat" and o["kind"] == "bveq":
             entry["model"] = model
-            entry["confirmed"] = "bit-vector terms differ on the model's input"
+            entry["found_by"] = how
+            entry["confirmed"] = bv_native_confirm(R, model)
         elif r == "sat" and o["kind"] == "fzero":
             entry["model"] = model
             entry["confirmed"] = "ring identity fails: non-zero residual polynomial " + str(model.get("residual"))
@@ -171,6 +178,38 @@ def confirm(sp, fns, consts, model, o, only=None):
 
 NATIVE = dict(base=None, features=[])
 CROSS = dict(n=0)
+SELFTEST = {}
+
+
+def bv_native_confirm(R, model):
+    """replay a bit-vector counterexample on the REAL build: the kernel as the crate dispatches it is run on the model's input and
+    compared with the standard's function evaluated on the same input. Confirmed only when the native output deviates."""
+    nat = getattr(R, "bvnative", None)
+    if nat is None or not NATIVE["base"]:
+        return "bit-vector terms of implementation and specification differ on the model's input (no native build given for replay)"
+    sys.path.insert(0, os.path.join(os.path.dirname(os.path.dirname(os.path.abspath(__file__))), "runner"))
+    import kanirun, subprocess
+    data = bytes([nat["op"]])
+    for (name, nbytes) in nat["layout"]:
+        v = name if isinstance(name, int) else model.get(name, 0)
+        data += (v % (1 << (8 * nbytes))).to_bytes(nbytes, "little")
+    want = nat["spec"](model)
+    exe, out = kanirun.native_build(NATIVE["base"], NATIVE["features"], "dev")
+    if not exe:
+        return None
+    env = dict(os.environ, VERIF_REPLAY_HARNESS=nat["harness"], VERIF_REPLAY_BYTES=data.hex(), RUST_BACKTRACE="0")
+    pr = subprocess.run([exe, "verif_glue::verif_replay_entry", "--exact", "--nocapture", "--test-threads", "1"], env=env, stdout=subprocess.PIPE, stderr=subprocess.STDOUT, timeout=300)
+    txt = pr.stdout.decode("utf-8", "replace")
+    m = re.search(r"VERIF-NATIVE-OUT:((?: -?\d+)*)", txt)
+    if not m:
+        pm = re.search(r"VERIF-REPLAY-RESULT: panicked .*msg=(.*)", txt)
+        return ("native dev build panics on the model's input: %s" % pm.group(1)[:120]) if pm else None
+    got = [int(x) for x in m.group(1).split()]
+    if got != want:
+        k = next(i for i in range(min(len(got), len(want))) if got[i] != want[i]) if len(got) == len(want) else -1
+        return "native build deviates from the standard's function on the model's input: output element %d is %s, the standard gives %s" % (
+            k, hex(got[k]) if k >= 0 else got[:4], hex(want[k]) if k >= 0 else want[:4])
+    return None     # the native kernel agrees with the standard here: the difference is an artefact of the encoding -> not reported
 
 
 def native_crosscheck(R):
